@@ -82,6 +82,7 @@ Event(e) ==
                 WTocRename(p, e.src, e.dst[2], TocOf(e.toc)), "toc-rename-violates-commit-rule")
        [] e.ev = "api" /\ e.op = "update" -> Try(isW /\ w[p].pc = "writing", WUpdate(p, e.key, e.uid), "update-outside-open-writer")
        [] e.ev = "api" /\ e.op = "add" -> Try(isW /\ w[p].pc = "writing", WAdd(p, e.key), "add-outside-open-writer")
+       [] e.ev = "api" /\ e.op = "adddup" -> Try(isW /\ w[p].pc = "writing", WAddDup(p, e.key, e.uid), "add-outside-open-writer")
        [] e.ev = "api" /\ e.op = "delete" -> Try(isW /\ w[p].pc = "writing", WDel(p, e.key), "delete-outside-open-writer")
        \* delete_by_term / delete_by_query / delete_document with the value the call returned
        [] e.ev = "api" /\ e.op = "deletemany" ->
